@@ -1,6 +1,9 @@
 package main
 
 import (
+	"context"
+	"io"
+	"net"
 	"encoding/json"
 	"fmt"
 	"strings"
@@ -9,6 +12,7 @@ import (
 
 	"github.com/gorilla/websocket"
 	"github.com/vipnode/vipnode/v2/ethnode"
+	"github.com/vipnode/vipnode/v2/jsonrpc2"
 	"github.com/vipnode/vipnode/v2/pool"
 	"github.com/vipnode/vipnode/v2/request"
 )
@@ -153,4 +157,109 @@ func c09Binary(ctx *Ctx, i int) {
 		}
 	}
 	ctx.Emit(Case{I: i, Kind: "binary-websocket", Desc: map[string]interface{}{"closes": obs}, Monitor: mon})
+}
+
+// c09InflightReconnect: a whitelist call to host H is in flight on connection A (the host is slow
+// to answer); H registers again on a new connection B; A is closed, so the pending call fails.
+// H's live registration on B must survive that: it is still counted, and the next peer request
+// calls it on B.
+// stuckWriteCodec: the pool's calls to the host get stuck in the write (a connection that is
+// dying: the peer no longer reads) and fail with a connection error once the connection closes.
+type stuckWriteCodec struct {
+	jsonrpc2.Codec
+	addr    string
+	mu      sync.Mutex
+	stuck   bool
+	arrived chan struct{}
+	closed  chan struct{}
+}
+
+func (c *stuckWriteCodec) RemoteAddr() string { return c.addr }
+func (c *stuckWriteCodec) WriteMessage(m *jsonrpc2.Message) error {
+	c.mu.Lock()
+	stuck := c.stuck && m.Request != nil
+	c.mu.Unlock()
+	if stuck {
+		select {
+		case c.arrived <- struct{}{}:
+		default:
+		}
+		<-c.closed
+		return io.ErrClosedPipe
+	}
+	return c.Codec.WriteMessage(m)
+}
+
+func c09InflightReconnect(ctx *Ctx, i int, drv int) {
+	w := newWorld(worldCfg{Drv: drv, Price: "1000", IntervalNs: 60e9, Settle: true})
+	defer w.Close()
+	w.aliasAll()
+	var mon []string
+	if _, err := w.connect("c1", false, "geth", "", ""); err != nil {
+		fatal("%v", err)
+	}
+	// connection A, built by hand so that the pool's side of it can get stuck
+	c1, c2 := net.Pipe()
+	agA := &FakeAgent{w: w, name: "h1", mode: "ack", conn: 0}
+	srvA := &jsonrpc2.Server{}
+	srvA.Register("vipnode_", agA)
+	sc := &stuckWriteCodec{Codec: jsonrpc2.IOCodec(c1), addr: "10.0.0.5:1", arrived: make(chan struct{}, 1), closed: make(chan struct{})}
+	poolSideA := &jsonrpc2.Remote{Codec: sc, Client: &jsonrpc2.Client{}, Server: w.server}
+	cliSideA := &jsonrpc2.Remote{Codec: jsonrpc2.IOCodec(c2), Client: &jsonrpc2.Client{}, Server: srvA}
+	go poolSideA.Serve()
+	go cliSideA.Serve()
+	a := &hostConn{agent: agA, poolSide: poolSideA, cliSide: cliSideA, c1: c1, c2: c2}
+	w.mu.Lock()
+	w.conns["h1"] = append(w.conns["h1"], a)
+	w.mu.Unlock()
+	if err := w.connectOn(a, "h1"); err != nil {
+		fatal("connect h1: %v", err)
+	}
+	sc.mu.Lock()
+	sc.stuck = true
+	sc.mu.Unlock()
+	done := make(chan error, 1)
+	go func() {
+		cctx, cancel := context.WithTimeout(context.Background(), 6*time.Second)
+		defer cancel()
+		_, err := w.peerCtx(cctx, "c1", 1, "")
+		done <- err
+	}()
+	got := false
+	select { // the pool's whitelist call is stuck in the write on A
+	case <-sc.arrived:
+		got = true
+	case <-time.After(2 * time.Second):
+	}
+	b := w.newConn("h1", "10.0.0.5:2")
+	errB := w.connectOn(b, "h1")
+	// A goes away with the call still pending: the write fails, then the disconnect hook runs
+	close(sc.closed)
+	c1.Close()
+	c2.Close()
+	var errReq error
+	select {
+	case errReq = <-done:
+	case <-time.After(8 * time.Second):
+		mon = append(mon, "c09-request-hangs: the peer request whose whitelist call was pending on a closed connection did not return")
+	}
+	w.pool.CloseRemote(poolSideA)
+	n := w.pool.NumRemotes()
+	if errB == nil && n != 1 {
+		mon = append(mon, fmt.Sprintf("c09-live-registration-lost: host h1 re-registered on a new connection while a call on its old one was pending; after the old one closed (the pending call failed: %v) the pool counts %d connected hosts, not 1", errReq, n))
+	}
+	w.takeCalls()
+	r, err := w.peer("c1", 1, "")
+	calls := w.takeCalls()
+	onB := false
+	for _, c := range calls {
+		if c.Host == "h1#1" {
+			onB = true
+		}
+	}
+	if errB == nil && (err != nil || r == nil || len(r.Peers) != 1 || !onB) {
+		mon = append(mon, fmt.Sprintf("c09-live-host-not-called: after the old connection closed, a peer request did not reach host h1 on its live connection (error %v, calls %v)", err, calls))
+	}
+	ctx.Emit(Case{I: i, Kind: "inflight-reconnect-" + driverNames[drv], Desc: map[string]interface{}{"call_stuck_on_old_connection": got,
+		"in_flight_request_error": fmt.Sprint(errReq), "remotes_after": n}, Monitor: mon})
 }
